@@ -3,6 +3,7 @@
 From Coq Require Import List String NArith ZArith Bool.
 From AM Require Import Rust.Ast Gen.Records Gen.Anycache Gen.Asset Ref.Load Ref.Sys Proofs.SysRecs Proofs.SysGraph Tie.Records.
 From AM Require Import Gen.Dirs Tie.Dirs.
+From AM Require Gen.CacheMap Tie.Maps.
 Import ListNotations.
 
 (* the code records as the model does: fresh record per reloadable load behind a drop guard,
@@ -89,3 +90,10 @@ Proof.
           (conj (proj2 (proj2 (proj2 (proj2 (proj2 (proj2 dirs_as_specified))))))
                 (proj1 (proj2 (proj2 dirs_as_specified))))).
 Qed.
+
+(* no_record, as the public API offers it, suspends recording whatever cache it is called on (the
+   recorder is per thread): both entry points are `records::no_record(f)` and nothing else *)
+Theorem C14_code_no_record_is_unconditional :
+  public_no_record_wf AnyCache_no_record = true /\
+  fn_body AM.Gen.CacheMap.AssetCache_no_record = [EBlock [ECall (EPath ["records"; "no_record"]) [EPath ["f"]]]].
+Proof. exact (conj anycache_no_record_is_unconditional AM.Tie.Maps.assetcache_no_record_is_unconditional). Qed.
